@@ -185,7 +185,8 @@ def run_case(case: dict) -> dict:
             elif kind == "dup" and r:
                 dlv = [r[0], r[0]]
             elif kind == "muxsub" and r and (r[0][0] >> 5) in (2, 3):
-                dlv = [r[0][:3] + bytes([r[0][3] ^ 1]) + r[0][4:]]
+                # (an entry at a sub-index other than 0 is answered under sub-index 0, entry 0 under sub-index 1)
+                dlv = [r[0][:3] + bytes([0 if r[0][3] else 1]) + r[0][4:]]
             elif kind == "toggle" and r and (r[0][0] >> 5) in (0, 1) and r[0][0] != 0x80:
                 dlv = [bytes([r[0][0] ^ 0x10]) + r[0][1:]]
             elif kind == "cs" and r:
